@@ -259,6 +259,10 @@ def r3(R):
                      "known fact, that fact is queued for the next delta and the round reports tag_changed - controlled by nothing else")
     rounds = [b for b in prog.bodies.values() if (b.r.get("trait_item") or "").endswith("ProvenanceInferenceStrategy::infer_round") and b.crate == "datalog"]
     R.floor("C12-R3", "provenance round implementations", len(rounds), 1)
+    nst = 0
+    for b in rounds:
+        nst += _sticky_flags(R, "C12-R3", b)
+    R.floor("C12-R3", "change flags set inside the round's loops", nst, 1)
     for b in rounds:
         R.saw(b)
         upd = [c for c in b.calls() if c.name() == "update_disjunction"]
@@ -276,7 +280,8 @@ def r3(R):
             # true edge of update_disjunction
             tgt = None
             for bb, t in b.terms():
-                if t["t"] == "switch" and F.op_local(t["discr"]) == u.dest["l"]:
+                if t["t"] == "switch" and (F.op_local(t["discr"]) == u.dest["l"] or
+                                           (b.alias_root(t["discr"]) is not None and b.alias_root(t["discr"]) == b.alias_root(u.dest["l"]))):
                     tgt = t["otherwise"]
             if tgt is None:
                 R.ob("C12-R3", "improved-edge:" + b.short, "the outcome of update_disjunction is tested", False, where=b.where(u.ln))
@@ -301,6 +306,31 @@ def r3(R):
                          and rv["rv"] == "use" and F.const_int(rv["op"]) == 1]
                 okf = any(b.dominates(f, pc.bb) or b.dominates(pc.bb, f) or f == pc.bb for f in flags)
                 R.ob("C12-R3", "flag:" + b.short, "the round reports tag_changed whenever it queues an improved fact", okf, where=b.where(pc.ln))
+
+
+def _sticky_flags(R, rid, b):
+    """change flags of a round are sticky: inside the round's loops a flag that ends up in the result is only ever set to true"""
+    ret_ops = set()
+    for bb, i, pl, rv, s in b.assigns():
+        if pl["l"] == 0 and rv["rv"] == "aggregate":
+            for o in rv["ops"]:
+                r = b.alias_root(o)
+                if r is not None:
+                    ret_ops.add(r)
+    n = 0
+    for l in sorted(ret_ops):
+        if b.local_ty(l) != "bool" or not b.local_name(l):
+            continue
+        inloop = [(bb, rv, s) for bb, i, pl, rv, s in b.assigns() if not pl["p"] and pl["l"] == l and b.loops_containing(bb)]
+        if not inloop:
+            continue
+        n += 1
+        bad = [s.get("ln") for bb, rv, s in inloop if not (rv["rv"] == "use" and F.const_int(rv["op"]) == 1)]
+        R.ob(rid, "sticky:%s:%s" % (b.short, b.local_name(l)), "inside the loops of %s the change flag `%s` is only ever set to true (other assignments at lines %s)"
+             % (b.short, b.local_name(l), bad), not bad, where=b.where(bad[0] if bad else None),
+             detail=None if not bad else "a flag recomputed per item reports the last item only: the driver stops although an earlier improvement of this round "
+             "still waits to be propagated (probabilities stay under-estimated)")
+    return n
 
 
 def _is_known_fact_test(b, c):
